@@ -16,7 +16,10 @@ Arguments ref_limbs : simpl never.
 Arguments bytes_of_int : simpl never.
 Arguments int_of_bytes : simpl never.
 
-Ltac nf := rewrite ?no_flags_ncm, ?no_flags_limits, ?no_flags_malachite, ?no_flags_disable in *.
+Section Loops.
+  Variable fl : flagset.
+  Hypothesis Hfl : plain_flags fl.
+  Ltac nf := rewrite ?(pf_ncm _ Hfl), ?(pf_lim _ Hfl), ?(pf_mal _ Hfl), ?(pf_dis _ Hfl) in *.
 
 (* ---- + ---- *)
 Lemma add_loop_closed pa pb args : forall cost acc M,
@@ -39,7 +42,7 @@ Proof.
 Qed.
 
 Lemma add_agrees args M : covers M (ref_add (items args)) ->
-  agrees (op_add no_flags args M) (ref_add (items args)).
+  agrees (op_add fl args M) (ref_add (items args)).
 Proof.
   intros HM. unfold op_add, arith_costs, ref_add in *. nf.
   pose proof (add_loop_closed ARITH_COST_PER_ARG ARITH_COST_PER_BYTE args ARITH_BASE_COST 0%Z M) as L.
@@ -101,7 +104,7 @@ Proof.
 Qed.
 
 Lemma sub_agrees args M : covers M (ref_sub (items args)) ->
-  agrees (op_subtract no_flags args M) (ref_sub (items args)).
+  agrees (op_subtract fl args M) (ref_sub (items args)).
 Proof.
   intros HM. unfold op_subtract, arith_costs, ref_sub in *. nf.
   pose proof (sub_loop_first ARITH_COST_PER_ARG ARITH_COST_PER_BYTE args ARITH_BASE_COST M) as L.
@@ -152,7 +155,7 @@ Proof.
 Qed.
 
 Lemma mul_agrees args M : covers M (ref_mul (items args)) ->
-  agrees (op_multiply no_flags args M) (ref_mul (items args)).
+  agrees (op_multiply fl args M) (ref_mul (items args)).
 Proof.
   intros HM. unfold op_multiply, ref_mul in *. nf. cbn [andb negb].
   destruct args as [t|a r].
@@ -213,7 +216,7 @@ Proof.
 Qed.
 
 Lemma concat_agrees args M : covers M (ref_concat (items args)) ->
-  agrees (op_concat no_flags args M) (ref_concat (items args)).
+  agrees (op_concat fl args M) (ref_concat (items args)).
 Proof.
   intros HM. unfold op_concat, ref_concat in *.
   pose proof (concat_loop_closed args CONCAT_BASE_COST [] M) as L.
@@ -260,12 +263,13 @@ Proof.
 Qed.
 
 Lemma sha256_agrees H args M : covers M (ref_sha256 H (items args)) ->
-  agrees (op_sha256 H no_flags args M) (ref_sha256 H (items args)).
+  agrees (op_sha256 H fl args M) (ref_sha256 H (items args)).
 Proof.
   intros HM. unfold ref_sha256 in *.
-  assert (E : op_sha256 H no_flags args M =
+  assert (E : op_sha256 H fl args M =
               do '(cost, terms) <- sha_loop SHA256_COST_PER_ARG SHA256_COST_PER_BYTE M args SHA256_BASE_COST [];
-              atom_and_cost cost (H (concat_rev terms))) by reflexivity.
+              atom_and_cost cost (H (concat_rev terms))).
+  { unfold op_sha256. rewrite (pf_ncm _ Hfl). reflexivity. }
   rewrite E. clear E.
   pose proof (sha_loop_closed SHA256_COST_PER_ARG SHA256_COST_PER_BYTE args SHA256_BASE_COST [] M) as L.
   destruct (atoms (items args)) as [bs|].
@@ -318,7 +322,7 @@ Section Logop.
 
   Lemma logop_agrees init args M : f init init = init ->
     covers M (ref_logop f init (items args)) ->
-    agrees (binop_reduction init f no_flags args M) (ref_logop f init (items args)).
+    agrees (binop_reduction init f fl args M) (ref_logop f init (items args)).
   Proof.
     intros Hinit HM. unfold binop_reduction, ref_logop in *. nf.
     pose proof (binop_loop_closed args LOG_BASE_COST init init M) as L.
@@ -334,17 +338,18 @@ Section Logop.
 End Logop.
 
 Lemma logand_agrees args M : covers M (ref_logop Z.land (-1)%Z (items args)) ->
-  agrees (op_logand no_flags args M) (ref_logop Z.land (-1)%Z (items args)).
+  agrees (op_logand fl args M) (ref_logop Z.land (-1)%Z (items args)).
 Proof.
   apply logop_agrees; [intros; apply Z.land_assoc|intros; apply Z.land_comm|reflexivity].
 Qed.
 Lemma logior_agrees args M : covers M (ref_logop Z.lor 0%Z (items args)) ->
-  agrees (op_logior no_flags args M) (ref_logop Z.lor 0%Z (items args)).
+  agrees (op_logior fl args M) (ref_logop Z.lor 0%Z (items args)).
 Proof.
   apply logop_agrees; [intros; apply Z.lor_assoc|intros; apply Z.lor_comm|reflexivity].
 Qed.
 Lemma logxor_agrees args M : covers M (ref_logop Z.lxor 0%Z (items args)) ->
-  agrees (op_logxor no_flags args M) (ref_logop Z.lxor 0%Z (items args)).
+  agrees (op_logxor fl args M) (ref_logop Z.lxor 0%Z (items args)).
 Proof.
   apply logop_agrees; [intros; symmetry; apply Z.lxor_assoc|intros; apply Z.lxor_comm|reflexivity].
 Qed.
+End Loops.
